@@ -130,6 +130,9 @@ pub fn fault_str(f: &[u8]) -> String {
     f.iter().map(|x| (b'0' + x) as char).collect()
 }
 
+/// attachments of the next cases are clones of one sender instead of distinct channels
+pub static CLONE_ATTS: std::sync::atomic::AtomicBool = std::sync::atomic::AtomicBool::new(false);
+
 pub fn one_case(sys: usize, sh: &Shape, rng: &mut Rng, id: String) -> Case {
     let mut case = Case::new(id);
     let data = rng.bytes(sh.len);
@@ -138,10 +141,20 @@ pub fn one_case(sys: usize, sh: &Shape, rng: &mut Rng, id: String) -> Case {
     // attachments
     let mut chans = Vec::new();
     let mut probes = Vec::new();
-    for _ in 0..sh.nch {
+    let clones = CLONE_ATTS.load(std::sync::atomic::Ordering::SeqCst);
+    if clones && sh.nch > 0 {
+        // the same endpoint embedded many times: clones share one descriptor number, each is an attachment of its own
         let (atx, arx) = platform::channel().unwrap();
-        chans.push(OsIpcChannel::Sender(atx));
+        for _ in 0..sh.nch {
+            chans.push(OsIpcChannel::Sender(atx.clone()));
+        }
         probes.push(arx);
+    } else {
+        for _ in 0..sh.nch {
+            let (atx, arx) = platform::channel().unwrap();
+            chans.push(OsIpcChannel::Sender(atx));
+            probes.push(arx);
+        }
     }
     let mut shms = Vec::new();
     let mut shm_data = Vec::new();
@@ -253,7 +266,7 @@ pub fn one_case(sys: usize, sh: &Shape, rng: &mut Rng, id: String) -> Case {
                         let sender = ch.to_sender();
                         let nonce = [i as u8, 0xA5, sh.len as u8, 7];
                         let _ = sender.send(&nonce, vec![], vec![]);
-                        match probes[i].try_recv() {
+                        match probes[if clones { 0 } else { i }].try_recv() {
                             Ok((d, _, _)) if d == nonce => {},
                             _ => case.fail(format!("attachment {} is not the sender of channel {}", i, i)),
                         }
@@ -425,6 +438,18 @@ pub fn run(args: &[String]) {
                     }
                 }
             }
+            // the same sender embedded many times (clones share a descriptor number; each is one attachment)
+            CLONE_ATTS.store(true, std::sync::atomic::Ordering::SeqCst);
+            for &cnt in &[2usize, 63, 64, 65, 100, 200] {
+                for &len in &[0usize, 10, max + 1] {
+                    let sh = Shape { len, nch: cnt, nshm: 0, faults: vec![] };
+                    let mut c = one_case(sys, &sh, &mut rng, format!("c15-{}-{}", sys, n));
+                    c.tags.push("attachments=clones_of_one_sender".into());
+                    c.emit();
+                    n += 1;
+                }
+            }
+            CLONE_ATTS.store(false, std::sync::atomic::Ordering::SeqCst);
             // ENOBUFS on the single-packet attempt forces fragmentation: the dedicated socket must still fit
             for &cnt in &[62usize, 63, 64] {
                 let sh = Shape { len: 3000.min(max), nch: cnt, nshm: 0, faults: vec![1] };
